@@ -211,8 +211,7 @@ def g_general(rng):
             alignment(seqs, "dt"),
             {"id": "tree", "type": "UnRootedTreeModel", "newick": rt.to_newick(root, lengths=False), "taxa": "taxa", "branch_lengths": P("tree.blens", np.exp(rng.normal(-1.5, 0.4, 2 * n - 3)).tolist())},
             {"id": "site", "type": "WeibullSiteModel", "categories": 3,
-             "shape": {"id": "shape", "type": "TransformedParameter", "transform": "torch.distributions.ExpTransform", "x": P("shape.unres", [0.26])},
-             "invariant": {"id": "pinv", "type": "TransformedParameter", "transform": "torch.distributions.SigmoidTransform", "x": P("pinv.unres", [-1.4])}},
+             "shape": {"id": "shape", "type": "TransformedParameter", "transform": "torch.distributions.ExpTransform", "x": P("shape.unres", [0.26])}},
             {"id": "sym", "type": "GeneralSymmetricSubstitutionModel", "data_type": "dt", "mapping": [0, 1, 0], "rates": P("sym.rates", [1.0, 2.5]), "frequencies": P("sym.freqs", rng.dirichlet([5] * 3).tolist())},
             {"id": "nonsym", "type": "GeneralNonSymmetricSubstitutionModel", "data_type": "dt", "mapping": [0, 1, 2, 3, 1, 0], "rates": P("nonsym.rates", np.exp(rng.normal(0, 0.4, 4)).tolist()),
              "frequencies": P("nonsym.freqs", rng.dirichlet([5] * 3).tolist())},
@@ -226,9 +225,9 @@ def g_general(rng):
              "site_pattern": {"id": "csp", "type": "SitePattern", "alignment": "caln"}},
             {"id": "joint", "type": "JointDistributionModel", "distributions": ["like.sym", "like.nonsym", "like.jc", "like.codon"]}]
     return {"name": "general", "spec": spec, "evals": ["like.sym", "like.nonsym", "like.jc", "like.codon", "joint"],
-            "leaves": {"tree.blens": "positive", "shape.unres": "real", "pinv.unres": "real", "sym.rates": "positive", "sym.freqs": "simplex", "nonsym.rates": "positive", "nonsym.freqs": "simplex",
+            "leaves": {"tree.blens": "positive", "shape.unres": "real", "sym.rates": "positive", "sym.freqs": "simplex", "nonsym.rates": "positive", "nonsym.freqs": "simplex",
                        "mg.alpha": "positive", "mg.beta": "positive", "mg.kappa": "positive", "mg.freqs": "simplex"},
-            "derived": ["shape", "pinv"], "tensors": {"tree": "branch_lengths()", "site": ["rates()", "probabilities()"]}}
+            "derived": ["shape"], "tensors": {"tree": "branch_lengths()", "site": ["rates()", "probabilities()"]}}
 
 
 def g_distributions(rng):
